@@ -189,6 +189,44 @@ Section Prune.
     mkF (f_alias f) (f_name f) (f_args f) (strip (f_dirs f)) (prune_list (f_sels f)).
 End Prune.
 
+(* ------------------------------------------- add_set type conditions ---- *)
+Definition implements (impls : list (name * list name)) (o c : name) : bool :=
+  match assoc o impls with Some l => mem c l | None => false end.
+
+(* root has static type st and runtime type rt.  [None] = no type condition. *)
+Definition applies_concrete (impls : list (name * list name)) (rt : name) (cond : option name) : bool :=
+  match cond with
+  | Some c => name_eqb rt c || implements impls rt c
+  | None => false
+  end.
+Definition applies_static (st : name) (cond : option name) : bool :=
+  match cond with
+  | Some c => name_eqb st c
+  | None => true
+  end.
+
+(* Fields::add_set as written: the condition names the runtime object type or
+   an interface it implements (registry.implements) -> collect_all_fields on
+   the concrete object (static type becomes rt); otherwise no condition, or
+   the condition names the static type -> same root; otherwise dropped (a
+   union condition met on a concrete object root is dropped: property C01). *)
+Definition cond_today (impls : list (name * list name)) (st rt : name) (c : option name) : option name :=
+  if applies_concrete impls rt c then Some rt
+  else if applies_static st c then Some st
+  else None.
+
+(* the GraphQL rule (DoesFragmentTypeApply): the runtime type is the condition,
+   implements it, or is a member of the union it names.  Accepted by the check
+   as well, so that correcting the C01 deviation is not reported here. *)
+Definition cond_spec (impls unions : list (name * list name)) (st rt : name) (c : option name) : option name :=
+  match c with
+  | None => Some st
+  | Some c' =>
+      if name_eqb rt c' || implements impls rt c' ||
+         match assoc c' unions with Some l => mem rt l | None => false end
+      then Some rt else None
+  end.
+
 (* --------------------------------------------------------------- views ---- *)
 Section Views.
   Variable frags : list (name * fragment).
@@ -265,23 +303,11 @@ Section Views.
     match fields with [] => false | _ => true end.
 
   (* ---- Fields::add_set: which fields become futures -------------------- *)
-  Variable impls : list (name * list name).   (* registry.implements *)
-
-  Definition implements (o c : name) : bool :=
-    match assoc o impls with Some l => mem c l | None => false end.
-
-  (* root has static type T (T::type_name()) and runtime type O
-     (introspection_type_name()).  [None] = no type condition. *)
-  Definition applies_concrete (rt : name) (cond : option name) : bool :=
-    match cond with
-    | Some c => name_eqb rt c || implements rt c
-    | None => false
-    end.
-  Definition applies_static (st : name) (cond : option name) : bool :=
-    match cond with
-    | Some c => name_eqb st c
-    | None => true
-    end.
+  (* [cond st rt c]: for a root of static type st (T::type_name()) and runtime
+     type rt (introspection_type_name()), is a fragment with type condition c
+     followed, and with which static type.  The theorems hold for EVERY such
+     function; the two instances used by the check are below. *)
+  Variable cond : name -> name -> option name -> option name.
 
   Fixpoint collect_sel (n : nat) (st rt : name) (s : selection) {struct n} : outcome (list fieldn) :=
     match n with
@@ -293,14 +319,16 @@ Section Views.
           match assoc nm frags with
           | None => Err E_UNKNOWN_FRAGMENT
           | Some fr =>
-              if applies_concrete rt (Some (fr_cond fr)) then collect_list n' rt rt (fr_sels fr)
-              else if applies_static st (Some (fr_cond fr)) then collect_list n' st rt (fr_sels fr)
-              else Ok []
+              match cond st rt (Some (fr_cond fr)) with
+              | Some st' => collect_list n' st' rt (fr_sels fr)
+              | None => Ok []
+              end
           end
       | SInline c _ sub =>
-          if applies_concrete rt c then collect_list n' rt rt sub
-          else if applies_static st c then collect_list n' st rt sub
-          else Ok []
+          match cond st rt c with
+          | Some st' => collect_list n' st' rt sub
+          | None => Ok []
+          end
       end
     end
   with collect_list (n : nat) (st rt : name) (l : list selection) {struct n} : outcome (list fieldn) :=
@@ -357,7 +385,7 @@ Section Spec.
   Definition spec_fields (n : nat) (l : list selection) : outcome (list fieldn) :=
     sflat_list n (unskipped vars l).
 
-  Variable impls : list (name * list name).
+  Variable cond : name -> name -> option name -> option name.
 
   Fixpoint scollect_sel (n : nat) (st rt : name) (s : selection) {struct n} : outcome (list fieldn) :=
     match n with
@@ -369,14 +397,16 @@ Section Spec.
           match assoc nm frags with
           | None => Err E_UNKNOWN_FRAGMENT
           | Some fr =>
-              if applies_concrete impls rt (Some (fr_cond fr)) then scollect_list n' rt rt (unskipped vars (fr_sels fr))
-              else if applies_static st (Some (fr_cond fr)) then scollect_list n' st rt (unskipped vars (fr_sels fr))
-              else Ok []
+              match cond st rt (Some (fr_cond fr)) with
+              | Some st' => scollect_list n' st' rt (unskipped vars (fr_sels fr))
+              | None => Ok []
+              end
           end
       | SInline c _ sub =>
-          if applies_concrete impls rt c then scollect_list n' rt rt (unskipped vars sub)
-          else if applies_static st c then scollect_list n' st rt (unskipped vars sub)
-          else Ok []
+          match cond st rt c with
+          | Some st' => scollect_list n' st' rt (unskipped vars sub)
+          | None => Ok []
+          end
       end
     end
   with scollect_list (n : nat) (st rt : name) (l : list selection) {struct n} : outcome (list fieldn) :=
@@ -425,6 +455,7 @@ Record lschema := {
   ls_mutation : name;
   ls_ftype : list ((name * name) * name);      (* (type, field) -> named return type *)
   ls_impl : list (name * list name);           (* registry.implements *)
+  ls_unions : list (name * list name);         (* possible types of every union *)
   ls_args : list ((name * name) * list (name * option value));
      (* declared arguments; None = raw (MaybeUndefined<Any>), Some d = typed with schema default d *)
   ls_voc_all : list name;
@@ -522,6 +553,7 @@ Section Trace.
   Variable vars : list (name * value).
   Variable vdefs : list vardef.
   Variable frags : list (name * fragment).   (* the fragments the executor holds *)
+  Variable cond : name -> name -> option name -> option name.
 
   (* the recursive view a resolver records from ctx.field() *)
   Fixpoint view_of (n : nat) (f : fieldn) {struct n} : outcome sview :=
@@ -583,7 +615,7 @@ Section Trace.
                   match gl with
                   | [] => Ok []
                   | (o, ch) :: r =>
-                      bindo (collect_list frags (ls_impl S) n' (ret_type cont f) o (f_sels f)) (fun fs =>
+                      bindo (collect_list frags cond n' (ret_type cont f) o (f_sels f)) (fun fs =>
                       bindo ((fix zip (fs : list fieldn) (ch : list tnode) : outcome (list tnode) :=
                                 match fs with
                                 | [] => Ok []
@@ -598,7 +630,7 @@ Section Trace.
   (* the root selection set is resolved on the operation's root object
      (T = O = root); mutations run serially over the same add_set result *)
   Definition model_roots (n : nat) (root : name) (sels : list selection) (orc : list tnode) : outcome (list tnode) :=
-    bindo (collect_list frags (ls_impl S) n root root sels) (fun fs =>
+    bindo (collect_list frags cond n root root sels) (fun fs =>
       (fix zip (fs : list fieldn) (ch : list tnode) : outcome (list tnode) :=
          match fs with
          | [] => Ok []
@@ -655,12 +687,14 @@ Fixpoint spec_node (t : tnode) {struct t} : bool :=
 Definition spec_roots (l : list tnode) : bool :=
   forallb (fun c => recv_agrees (tn_view c) (tn_recv c) && spec_node c) l.
 
-(* "leaving out fields removed by @skip/@include": walking the ORIGINAL
-   document with directives evaluated on the fly, every recorded view is the
-   view of the unskipped part.  Navigation (which original field a recorded
-   invocation belongs to) uses scollect. *)
+(* "leaving out fields removed by @skip/@include", and "every resolved
+   sub-field is listed": walking the ORIGINAL document with directives
+   evaluated on the fly.  The recorded view of an invocation must be the view
+   of the unskipped part of its field, and the invocations recorded beneath it
+   (per returned object) must be, in order, a subsequence of the unskipped
+   fields of its selection set — matched by their complete own views, without
+   any assumption on how the executor treats type conditions. *)
 Section SpecWalk.
-  Variable S : lschema.
   Variable vars : list (name * value).
   Variable vdefs : list vardef.
   Variable frags : list (name * fragment).   (* ORIGINAL fragments *)
@@ -679,40 +713,49 @@ Section SpecWalk.
                (o2opt (view_dirs vars vdefs (strip (f_dirs f)))) subs)))
     end.
 
-  Fixpoint swalk (n : nat) (cont : name) (f : fieldn) (t : tnode) {struct n} : bool :=
+  Definition view_is (n : nat) (f : fieldn) (v : sview) : bool :=
+    match sview_of n f with Ok w => sview_eqb w v | _ => false end.
+
+  (* children [ch] (in order) against candidate fields [fs] (in order) *)
+  Fixpoint swalk (n : nat) (f : fieldn) (t : tnode) {struct n} : bool :=
     match n with
     | O => false
     | Datatypes.S n' =>
-        match sview_of n' f with
-        | Ok v => sview_eqb v (tn_view t)
+        view_is n' f (tn_view t) &&
+        match spec_fields vars frags n' (f_sels f) with
+        | Ok fs =>
+            forallb (fun g : name * list tnode =>
+              (fix sub (ch : list tnode) (fs : list fieldn) {struct fs} : bool :=
+                 match ch with
+                 | [] => true
+                 | c :: ch' =>
+                     match fs with
+                     | [] => false
+                     | x :: fs' =>
+                         if negb (is_typename (f_name x)) && view_is n' x (tn_view c)
+                         then swalk n' x c && sub ch' fs'
+                         else sub ch fs'
+                     end
+                 end) (snd g) fs) (tn_groups t)
         | _ => false
-        end &&
-        (fix gg (gl : list (name * list tnode)) : bool :=
-           match gl with
-           | [] => true
-           | (o, ch) :: r =>
-               match scollect_list vars frags (ls_impl S) n' (ret_type S cont f) o (unskipped vars (f_sels f)) with
-               | Ok fs =>
-                   (fix zip (fs : list fieldn) (ch : list tnode) : bool :=
-                      match fs, ch with
-                      | [], [] => true
-                      | c :: fs', t' :: ch' => swalk n' o c t' && zip fs' ch'
-                      | _, _ => false
-                      end) (resolvable fs) ch
-               | _ => false
-               end && gg r
-           end) (tn_groups t)
+        end
     end.
 
-  Definition swalk_roots (n : nat) (root : name) (sels : list selection) (roots : list tnode) : bool :=
-    match scollect_list vars frags (ls_impl S) n root root (unskipped vars sels) with
+  Definition swalk_roots (n : nat) (sels : list selection) (roots : list tnode) : bool :=
+    match spec_fields vars frags n sels with
     | Ok fs =>
-        (fix zip (fs : list fieldn) (ch : list tnode) : bool :=
-           match fs, ch with
-           | [], [] => true
-           | c :: fs', t' :: ch' => swalk n root c t' && zip fs' ch'
-           | _, _ => false
-           end) (resolvable fs) roots
+        (fix sub (ch : list tnode) (fs : list fieldn) {struct fs} : bool :=
+           match ch with
+           | [] => true
+           | c :: ch' =>
+               match fs with
+               | [] => false
+               | x :: fs' =>
+                   if negb (is_typename (f_name x)) && view_is n x (tn_view c)
+                   then swalk n x c && sub ch' fs'
+                   else sub ch fs'
+               end
+           end) roots fs
     | _ => false
     end.
 End SpecWalk.
@@ -771,9 +814,13 @@ Definition check_c22 (S : lschema) (d : document) (opn : option name) (vars : li
                       | None => true
                       end in
       let root := match op_ty op with OpMutation => ls_mutation S | _ => ls_query S end in
-      let m := model_roots S vars (op_vars op) frags' n root sels' roots in
-      let impl_eq_model := match m with Ok mr => roots_eqb mr roots && prune_ok && exists_ok | _ => false end in
-      let spec_of r := spec_roots r && swalk_roots S vars (op_vars op) (doc_frags d) n root (op_sels op) r in
+      let matches m := match m with Ok mr => roots_eqb mr roots | _ => false end in
+      let m1 := model_roots S vars (op_vars op) frags' (cond_today (ls_impl S)) n root sels' roots in
+      let m2 := model_roots S vars (op_vars op) frags' (cond_spec (ls_impl S) (ls_unions S)) n root sels' roots in
+      (* the executor's type-condition rule: as written today, or the GraphQL rule *)
+      let m := if matches m1 then m1 else if matches m2 then m2 else m1 in
+      let impl_eq_model := matches m && prune_ok && exists_ok in
+      let spec_of r := spec_roots r && swalk_roots vars (op_vars op) (doc_frags d) n (op_sels op) r in
       let model_ok := match m with Ok mr => spec_of mr | _ => false end in
       let impl_ok := spec_of roots && exists_ok in
       verdict impl_eq_model model_ok impl_ok 0%N
